@@ -23,6 +23,8 @@ def run(ctx):
         for o in offs:
             c = mkcase('R%d_%d' % (i, o), cfg, data)
             c['inputs'][0]['fail_at'] = o; c['inputs'][0]['interrupts'] = rnd.choice([0, 0, 1, 3])
+            # whatever the kind of the error: only Interrupted is retried, every other kind is a failed read
+            c['inputs'][0]['fail_kind'] = rnd.choice(['other', 'other', 'wouldblock', 'timedout', 'brokenpipe', 'unexpectedeof', 'connectionreset', 'invaliddata'])
             c['inputs'][0]['chunking'] = [rnd.randint(1, 7) for _ in range(40)]
             cases.append(c); meta[c['id']] = ('read', cfg, data, o)
     # write failures inside the last record admitted by --take (the limiter must not drop the error)
@@ -61,9 +63,9 @@ def run(ctx):
         if kind == 'read':
             # never mistaken for end of input, never skipped: the run cannot succeed
             if a['result'] == 'ok':
-                violations.append(viol(cfg, data, kind, o, 'a read error is not end of input and is not skipped like a malformed value', 'ok', 'err:io')); continue
+                violations.append(viol(cfg, data, kind, o, 'a read error is not end of input and is not skipped like a malformed value', 'ok', 'err:io', c['inputs'][0].get('fail_kind'))); continue
             if a['result'] != 'err:io' and not (cfg['on_error'] == 'panic' and a['result'] == 'err:json'):
-                violations.append(viol(cfg, data, kind, o, 'a read error stops the run with an I/O error', a['result'], 'err:io')); continue
+                violations.append(viol(cfg, data, kind, o, 'a read error stops the run with an I/O error', a['result'], 'err:io', c['inputs'][0].get('fail_kind'))); continue
             if not cfg['sort'] and cfg['group'] is None and not lib.canon_errlines(base['stdout']).startswith(lib.canon_errlines(a['stdout'])):
                 violations.append(viol(cfg, data, kind, o, 'streaming: what reached the output before the failure is a prefix of the fault-free output', a['stdout'].decode('utf8', 'replace')[:300], base['stdout'].decode('utf8', 'replace')[:300]))
         else:
@@ -96,14 +98,16 @@ def run(ctx):
     broken = ['correspondence: model and implementation differ on %d cases, e.g. %s' % (len(mism), json.dumps(mism[0])[:1500])] if mism else []
     return {'coverage': cov, 'violations': violations, 'broken': broken}
 
-def viol(cfg, data, kind, o, rel, obs, exp):
-    return {'property': 'C16', 'relation': rel, 'fault': kind, 'offset': o, 'args': lib.cfg_args(cfg), 'stdin_hex': data.hex(), 'stdin': data.decode('utf8', 'replace')[:400], 'observed': obs, 'expected': exp}
+def viol(cfg, data, kind, o, rel, obs, exp, fail_kind=None):
+    return {'property': 'C16', 'relation': rel, 'fault': kind, 'offset': o, 'fail_kind': fail_kind, 'args': lib.cfg_args(cfg), 'stdin_hex': data.hex(), 'stdin': data.decode('utf8', 'replace')[:400], 'observed': obs, 'expected': exp}
 
 def replay(ctx, r):
     c = {'id': 'r', 'cfg': lib.new_cfg(), 'args': r['args'], 'inputs': [{'data': bytes.fromhex(r['stdin_hex'])}]}
     if r.get('file_fault'):
         c = {'id': 'r', 'cfg': lib.new_cfg(), 'args': r['args'], 'files': True, 'dir': r['file_fault']['dir'], 'inputs': [{'data': b'1 2\n', 'name': 'a_first.json'}], 'links': [['b_bad.json', '/proc/self/mem']]}
-    elif r['fault'] == 'read': c['inputs'][0]['fail_at'] = r['offset']
+    elif r['fault'] == 'read':
+        c['inputs'][0]['fail_at'] = r['offset']
+        if r.get('fail_kind'): c['inputs'][0]['fail_kind'] = r['fail_kind']
     else: c['out_room'] = r['offset']
     a = lib.run_harness([c])['r']
     return {'observed': {'result': a['result'], 'stdout': a['stdout'].decode('utf8', 'replace')[:300]}, 'expected': r.get('expected'), 'fails': a['result'] != 'err:io'}
